@@ -130,9 +130,17 @@ def check(pid, P, tier, seed):
         standins = [s for s in P.get("standin", []) if tier == "thorough" or s.get("quick", True)]
         if standins:
             nat_fut = ex.submit(native.run_standins, standins, tier, seed)
+        stability = {}
+        if tier == "thorough":
+            # second pass with another SMT seed and half the resource limit: exposes proofs that only just go through
+            for u in units:
+                futs[ex.submit(verus.run, u, False, None, 5, workdir + "-stab", 900, ["--smt-option", "smt.random_seed=%d" % (7 + seed)])] = ("stab", u)
         for f in cf.as_completed(list(futs)):
             kind, u = futs[f]
-            (results if kind == "main" else canaries)[u] = f.result()
+            if kind == "stab":
+                stability[u] = f.result()
+            else:
+                (results if kind == "main" else canaries)[u] = f.result()
         nat = nat_fut.result() if nat_fut else None
 
     undecided, violations, known_hits = [], [], []
@@ -289,6 +297,7 @@ def check(pid, P, tier, seed):
         "solver_time_s": round(sum(d.get("time_us", 0) for d in per_ob.values()) / 1e6, 3),
         "rule_instances": rule_log,
         "extracted_sources": {u: results[u].hashes for u in units},
+        "stability_pass": {u: {"status": r.status, "failed": sorted(r.failed_fns())} for u, r in stability.items()},
         "canaries": {u: {fn: ("failed-as-required" if not d["success"] else "VERIFIED(vacuous!)") for fn, d in canaries[u].functions.items() if fn.split("::")[-1].startswith("canary_")} for u in canaries if canaries[u].status not in ("lost", "frontend", "tool")},
         "bounded": bounded,
         "samples": samples or [{"note": "no obligation discharged"}],
@@ -315,6 +324,7 @@ def check(pid, P, tier, seed):
         pid, len(discharged), len(obligations), n_viol, len(undecided), len(known_hits), time.time() - t0))
     shutil.rmtree(workdir, ignore_errors=True)
     shutil.rmtree(workdir + "-retry", ignore_errors=True)
+    shutil.rmtree(workdir + "-stab", ignore_errors=True)
     return exit_code
 
 
